@@ -311,11 +311,11 @@ class DocGen:
             return self.lit_text(t, d)
         return self.lit_of(self.pyval(t, d, literal=True))
 
-    def lit_text(self, t, d, nonnull=False, novar=False):
+    def lit_text(self, t, d, nonnull=False, novar=False, bare=False):
         """Literal text for type t with variables at nested positions (list items, input fields)."""
         r = self.r
         if is_non_null_type(t):
-            return self.lit_text(t.of_type, d, True, novar)
+            return self.lit_text(t.of_type, d, True, novar, bare)
         if d > 0 and not novar and r.random() < self.p_var * 0.6:
             ts = str(t) + ('!' if nonnull else '')
             if nonnull and r.random() < self.p_boundary:
@@ -326,14 +326,16 @@ class DocGen:
         if not nonnull and r.random() < self.p_null:
             return 'null'
         if is_list_type(t):
-            if r.random() < 0.15 and not is_list_type(t.of_type):
-                return self.lit_text(t.of_type, d + 1, novar=True)
+            if r.random() < 0.2 and not is_list_type(t.of_type):
+                # a single value where a list is expected (coerced to a list of one): the value itself cannot be a variable of
+                # the item type, but an object literal may carry variables in its fields
+                return self.lit_text(t.of_type, d + 1, novar=True, bare=True)
             return '[' + ', '.join(self.lit_text(t.of_type, d + 1) for _ in range(r.randint(0, 3))) + ']'
         if is_input_object_type(t) and getattr(t, 'is_one_of', False) and d < 3:
             # exactly one member; a variable there must be of non-null type (boundary case: a nullable one, which
             # validation must reject whatever wraps the OneOf type at this position)
             fname, fdef = r.choice(list(t.fields.items()))
-            if not novar and r.random() < max(self.p_var, 0.3):
+            if (not novar or bare) and r.random() < max(self.p_var, 0.3):
                 ts = str(fdef.type).rstrip('!') + ('' if r.random() < max(self.p_boundary, 0.15) else '!')
                 tt = self.type_of_str(ts)
                 return '{' + f'{fname}: $' + self.var(ts, lambda: self.pyval(tt, d + 1)) + '}'
